@@ -43,9 +43,10 @@ class Population:
         return [Individual(genome, self.problem, fitness) for genome, fitness in zip(self.genomes, self.fitnesses)]
 
     def topk(self, k: int) -> "Population":
-        order = np.argsort(self.fitnesses)
-        # order[-k:] would be the whole population for k == 0.
-        topk_indices = order[max(len(order) - k, 0) :] if self.problem.maximize else order[:k]
+        # Maximisation sorts the negated values: the same individuals, in the same (best first) order, are kept
+        # as when minimising the negated objective - also among equal fitness values at the cut, and for k == 0.
+        keys = -self.fitnesses if self.problem.maximize else self.fitnesses
+        topk_indices = np.argsort(keys)[:k]
         return Population(self.genomes[topk_indices], self.fitnesses[topk_indices], self.problem)
 
     def merge(self, other: "Population") -> "Population":
